@@ -108,6 +108,7 @@ for loader in YAMLLOADERS:
 def numpy_float_representer(dumper, data):
     return dumper.represent_float(float(data))
 yaml.add_representer(np.float64, numpy_float_representer)
+yaml.add_representer(np.float32, numpy_float_representer)
 
 def numpy_int_representer(dumper, data):
     return dumper.represent_int(int(data))
